@@ -45,6 +45,11 @@ def run(tier):
         rng = random.Random(seed())
         cover = [s for s in scen if len(s["pages"]) == 4 or s["consumer"]["mode"] == "slow"]
         scen = cover + rng.sample(scen, 5000)
+    # the same connections also carry a request whose caller gave up and whose answer arrives late (a foreign, delayed response)
+    import random as _r
+    from common import seed as _seed
+    g = _r.Random(_seed() + 7).sample(scen, 80 if tier == "quick" else 600)
+    scen = scen + [dict(json.loads(json.dumps(s)), ghost=1) for s in g]
     for i, s in enumerate(scen):
         s["id"] = i
     sin, sout = os.path.join(wd, "scen.ndjson"), os.path.join(wd, "out.ndjson")
@@ -65,8 +70,8 @@ def run(tier):
         raise ToolError("Trace_Pager did not consume its input (line %s)" % rej)
     for b in bad_lines(rr)[:20]:
         x = rows[b]
-        v.violation("%s query, pages %s, faults %s, consumer %s: requests (page, reply) %s; the stream yielded %s and then '%s' %s" % (
-            x["kind"], x["pages"], x["faults"], x["consumer"], [(f["page"], f["reply"]) for f in x["frames"]], x["items"], x["end"],
+        v.violation("%s query%s, pages %s, faults %s, consumer %s: requests (page, reply) %s; the stream yielded %s and then '%s' %s" % (
+            x["kind"], " (after abandoned requests whose answers arrive late)" if x.get("ghost") else "", x["pages"], x["faults"], x["consumer"], [(f["page"], f["reply"]) for f in x["frames"]], x["items"], x["end"],
             (x["err"] or x["start_err"])[:120]), [x])
     # ---- control connection --------------------------------------------------------------------------------------
     ctl = [{"id": i, "nodes": n, "keyspaces": k, "tables": t, "sys_page": p, "empty": e}
@@ -94,7 +99,7 @@ def run(tier):
     v.add(states=r.distinct, evaluations=len(rows) + len(crow), distinct_nontrivial=len(rows) + len(crow),
           rule="states = distinct states of the pager machine over all scenarios (all worker / server / consumer interleavings); evaluation = one scenario run "
                "through a real Session against the mock cluster and judged by TLC",
-          scenarios_model_checked=len(r.json_prints("SCEN")), scenarios_executed=len(rows), control_scenarios=len(crow),
+          scenarios_model_checked=len(r.json_prints("SCEN")), scenarios_executed=len(rows), scenarios_with_late_foreign_response=sum(1 for x in rows if x.get("ghost")), control_scenarios=len(crow),
           fault_kinds=faults, frames_seen=sum(len(x["frames"]) for x in rows),
           ended={e: sum(1 for x in rows if x["end"] == e) for e in ("done", "error", "dropped")},
           model_bounds={"pages": "1..4 of 0..2 rows", "faults_per_page": "0..3", "plan_targets": 3, "channel_capacity": 1},
